@@ -43,6 +43,29 @@ CHECKS = {
             "note": _NET_NOTE},
 }
 
+_DISK_NOTE = ("Trusted base: SimFS (/verif/sim/fs.py) as the file-system model - ordered-metadata journal, fsync commits earlier directory "
+              "operations, atomic rename, user-space write buffer lost by any crash - plus the kernel and CPython. mysensors.persistence, "
+              "pickle and json run as shipped. A real file system that reorders directory operations is outside the result.")
+
+CHECKS.update({
+    "C11": {"category": "exploration", "design_ref": "DESIGN.md 5/C11",
+            "technique": "deterministic simulation: differential pair (pickle vs json) of one simulated history with clean stop/restart rounds on SimFS, compared with the reference model",
+            "text": "The same simulated history runs with both file formats, each with two clean stop/restart rounds; loaded state must equal the pre-stop state, the model and the other format; transient smart-sleep/OTA state must not be resurrected.",
+            "note": _NET_NOTE + " " + _DISK_NOTE},
+    "C12": {"category": "fault_enumeration", "design_ref": "DESIGN.md 5/C12",
+            "technique": "deterministic simulation with fault injection: one crash or failing operation at a drawn file-system operation of a save on SimFS, crash-state resolution (process death / power loss), load by a fresh gateway",
+            "text": "Fault enumeration over the numbered file-system operations of one save x fault kind x crash resolution, sampled by seed over many states and prior on-disk configurations; the surviving disk is loaded by a fresh gateway and must give exactly the old or the new state.",
+            "note": _DISK_NOTE},
+    "C13": {"category": "fault_enumeration", "design_ref": "DESIGN.md 5/C13",
+            "technique": "deterministic simulation with fault injection: torn/zero-filled/missing persistence files on SimFS at drawn offsets, start-up of threaded and asyncio gateways under the kernel",
+            "text": "Files written by the real save code are damaged at drawn offsets (truncate, zero-fill, empty, missing) in combination with backup states; start_persistence() of threaded and asyncio gateways must return normally with the backup's state or empty.",
+            "note": _DISK_NOTE},
+    "C14": {"category": "exploration", "design_ref": "DESIGN.md 5/C14",
+            "technique": "deterministic simulation: histories with save-timer ticks at drawn simulated times, clean stop, restart on the same SimFS, projection equality",
+            "text": "Histories over every handler kind with the 10 s save timer firing at drawn simulated times, ended by stop(); a fresh gateway on the same simulated disk must reproduce the pre-stop state.",
+            "note": _NET_NOTE + " " + _DISK_NOTE},
+})
+
 NOT_APPLICABLE = {
     "C02": "pure function of its arguments (Message.decode/encode/copy): no schedule, clock, I/O, fault or history can change the result, so deterministic simulation has nothing to decide (DESIGN.md section 6)",
     "C03": "acceptance is a pure function of (version, line); an exhaustive header x payload-class product is table enumeration, not a search over schedules or faults (DESIGN.md section 6)",
